@@ -189,7 +189,7 @@ Proof.
       * match goal with |- context [if ?c then _ else _] => destruct c end; [|exact OV].
         change (removelast (os :: b :: r)) with (os :: removelast (b :: r)). exact OV.
   - intros H _. cbn [bind] in H. mon H. mon E. inversion E; subst a; clear E.
-    apply find_best_listed in E0.
+    apply (DepotFacts.find_best_res_iff nw) in E0. apply find_best_listed in E0.
     destruct (is_depot (nd nw (last (first :: rest) first))).
     + inversion H; subst. exact E0.
     + mon H. inversion H; subst. exact E0.
